@@ -1,6 +1,7 @@
 package chain
 
 import (
+	"bytes"
 	"context"
 	"encoding/hex"
 	"fmt"
@@ -53,6 +54,7 @@ type EthTx struct {
 	SignChainID  int64 `json:"sign_chain_id,omitempty"` // sign for another EIP-155 id
 	Unprotected  bool  `json:"unprotected,omitempty"`   // homestead signature (legacy only)
 	DeclaredFrom int   `json:"declared_from,omitempty"` // 1+key index declared as sender instead of the signer
+	DeclaredLong bool  `json:"declared_long,omitempty"` // declare LongAddr(From): a 32-byte account address ending in the signer's 20 bytes
 	TamperSig    bool  `json:"tamper_sig,omitempty"`    // flip a bit of S after signing
 	TamperData   bool  `json:"tamper_data,omitempty"`   // change payload after signing
 }
@@ -165,17 +167,32 @@ func (e EthTx) Build(txCfg client.TxConfig) ([]byte, *ethtypes.Transaction, erro
 	if e.DeclaredFrom > 0 {
 		from = K(e.DeclaredFrom - 1).Addr
 	}
+	if e.DeclaredLong {
+		bz, err := WrapEthTxFrom(txCfg, tx, LongAddr(e.From).String())
+		return bz, tx, err
+	}
 	bz, err := WrapEthTx(txCfg, tx, from)
 	return bz, tx, err
 }
 
+// LongAddr is a 32-byte account address (the length module and interchain accounts have) whose last 20 bytes are
+// the address of key k.
+func LongAddr(k int) sdk.AccAddress {
+	return sdk.AccAddress(append(bytes.Repeat([]byte{0xee}, 12), K(k).Addr.Bytes()...))
+}
+
 // WrapEthTx wraps a signed Ethereum tx into the canonical Cosmos tx bytes.
 func WrapEthTx(txCfg client.TxConfig, tx *ethtypes.Transaction, from common.Address) ([]byte, error) {
+	return WrapEthTxFrom(txCfg, tx, sdk.AccAddress(from.Bytes()).String())
+}
+
+// WrapEthTxFrom is WrapEthTx with the declared sender given as the string that goes into the message.
+func WrapEthTxFrom(txCfg client.TxConfig, tx *ethtypes.Transaction, from string) ([]byte, error) {
 	ethBz, err := tx.MarshalBinary()
 	if err != nil {
 		return nil, err
 	}
-	msg := &evmtypes.MsgEthereumTx{MarshalledTx: ethBz, From: sdk.AccAddress(from.Bytes()).String()}
+	msg := &evmtypes.MsgEthereumTx{MarshalledTx: ethBz, From: from}
 	stx, err := msg.BuildTx(txCfg.NewTxBuilder(), Denom)
 	if err != nil {
 		return nil, err
